@@ -262,7 +262,7 @@ pub fn check(scn: &Scenario, stats: &mut Stats) -> Vec<Violation> {
 
     // T1
     feats.insert("personality".into(), format!("{:?}", scn.personality));
-    for api in [Api::Run, Api::Coded] {
+    for api in [Api::Coded, Api::Run] {
         let mut spec = LintSpec::new(&scn.world, scn.entropy[0], api.clone());
         spec.personality = scn.personality;
         spec.faults = scn.reader_faults.clone();
